@@ -38,3 +38,70 @@ func VF_C15_KeyToSlot() {
 	vfAssert(got == want, "KeyToSlot differs from the cluster specification")
 	vfAssertTwin(got != want, "twin: slot always differs")
 }
+
+//vf:job C15 quick VF_C15_Crc16Step
+//vf:job C15 quick VF_C15_Crc16CheckValue
+//vf:job C15 quick VF_C15_ChosenKeyInRange lr=0..5
+//vf:job C15 quick VF_C15_SlotFilterUse n=1..3
+//vf:replayE C15 VF_C15_ChosenKeyInRange
+//vf:stub C15 redis-go-cluster GetSlot (used by the checkpoint key search) is replaced by the tool's own KeyToSlot, which the first harness ties to the specification
+//vf:assume C15 CRC16: one table step from an arbitrary 16-bit state equals one bitwise XMODEM step (polynomial 0x1021, no reflection); longer strings by induction (paper); plus the published check value crc16("123456789") = 0x31C3
+//vf:outside C15 existence of a suffix for every [l,r] (a 26^4-leaf concrete enumeration, not a solver question): six ranges are run concretely
+
+// vfXmodemStep is the textbook bitwise CRC16/XMODEM step (branch free)
+func vfXmodemStep(crc uint16, b byte) uint16 {
+	crc ^= uint16(b) << 8
+	for i := 0; i < 8; i++ {
+		crc = (crc << 1) ^ (0x1021 & -(crc >> 15))
+	}
+	return crc
+}
+
+// one table step of the tool's crc16 from an arbitrary state == bitwise XMODEM step
+func VF_C15_Crc16Step() {
+	s := vfUint16("s")
+	b := vfByte("b")
+	got := (s << 8) ^ crc16tab[byte(s>>8)^b]
+	vfAssert(got == vfXmodemStep(s, b), "crc16 table step differs from the bitwise CRC16/XMODEM step")
+	// and crc16 of a 1- and 2-byte string is the fold of steps from 0
+	k := vfStr("k", 2)
+	vfAssert(crc16(k[:1]) == vfXmodemStep(0, k[0]), "crc16 of one byte")
+	vfAssert(crc16(k) == vfXmodemStep(vfXmodemStep(0, k[0]), k[1]), "crc16 of two bytes is not the fold of two steps")
+	vfAssertTwin(got == s, "twin")
+}
+
+func VF_C15_Crc16CheckValue() {
+	vfAssert(crc16("123456789") == 0x31c3, "crc16 check value for \"123456789\" is not 0x31C3")
+	vfAssert(crc16("") == 0, "crc16 of the empty string")
+	vfAssert(KeyToSlot("123456789") == 0x31c3&0x3fff, "slot of the check string")
+	vfAssert(KeyToSlot("foo{bar}zap") == KeyToSlot("bar") && KeyToSlot("{user1000}.following") == KeyToSlot("{user1000}.followers"), "hash tag examples of the cluster specification")
+	vfAssertTwin(crc16("a") == 0, "twin")
+}
+
+var vfRanges = [][2]int{{0, 16383}, {0, 8191}, {8192, 16383}, {5461, 10922}, {12000, 16383}, {0, 4000}}
+
+// the checkpoint key chosen for a shard hashes inside the shard's slot range and is excluded by the key filter
+func VF_C15_ChosenKeyInRange() {
+	lr := vfRanges[vfParam("lr", 0)]
+	vfStub("github.com/vinllen/redis-go-cluster.GetSlot", func(key interface{}) (uint16, error) { return KeyToSlot(string(key.([]byte))), nil })
+	name := ChoseSlotInRange(CheckpointKey, lr[0], lr[1])
+	vfAssert(len(name) == len(CheckpointKey)+1+checkpointSuffixLen && name[:len(CheckpointKey)+1] == CheckpointKey+"-", "chosen checkpoint key is not <prefix>-xxxx")
+	slot := int(KeyToSlot(name))
+	vfAssert(slot >= lr[0] && slot <= lr[1], "chosen checkpoint key does not hash into the shard's slot range")
+	vfAssertTwin(slot < lr[0], "twin")
+}
+
+// full sync's slot filter input is the same slot function: keys with the same tag share the decision
+func VF_C15_SlotFilterUse() {
+	n := vfParam("n", 2)
+	tag := vfStr("tag", n)
+	for i := 0; i < n; i++ {
+		vfAssume(tag[i] != '{')
+		vfAssume(tag[i] != '}')
+	}
+	a := "{" + tag + "}" + vfStr("x", 1)
+	b := vfStr("y", 1) + "{" + tag + "}"
+	vfAssume(b[0] != '{')
+	vfAssert(KeyToSlot(a) == KeyToSlot(tag) && KeyToSlot(b) == KeyToSlot(tag), "keys sharing a hash tag do not share a slot")
+	vfAssertTwin(KeyToSlot(a) != KeyToSlot(b), "twin")
+}
